@@ -7,6 +7,7 @@ import (
 	"sort"
 	"strings"
 
+	"github.com/ontio/ontology-crypto/keypair"
 	"github.com/polynetwork/poly/common"
 	"polyverif/internal/hx"
 )
@@ -104,6 +105,20 @@ func pkBytesKey(pk string) string {
 		return "str:" + pk
 	}
 	return hex.EncodeToString(b)
+}
+
+// pkIdentity: the public key a pool key string denotes (canonical serialization of the deserialized key); several
+// byte strings deserialize to the same key (hex case, trailing bytes, uncompressed form).
+func pkIdentity(pk string) string {
+	b, err := hex.DecodeString(strTok(pk))
+	if err != nil {
+		return "str:" + pk
+	}
+	k, err := keypair.DeserializePublicKey(b)
+	if err != nil {
+		return hex.EncodeToString(b)
+	}
+	return hex.EncodeToString(keypair.SerializePublicKey(k))
 }
 
 // requestKey identifies the request an approve op refers to (by what the request is about, not by the spelling).
@@ -247,8 +262,13 @@ func (sh *shadow) after(r *hx.Run, w *world, op []string, pre, post *snapshot, c
 	}
 	// ------------------------------------------------------------------ pool invariants (C34)
 	if name == "init" && okOp {
+		if sh.inited {
+			r.Viol("C34:initConfig-executed-again", fmt.Sprintf("initConfig, sent as an ordinary transaction without any signature, succeeded on an initialised node manager: the pool of view %d with %d members was replaced by %d members, view %d",
+				pre.gv.View, len(pre.curPool()), len(post.curPool()), post.gv.View))
+		} else {
+			sh.startActive = active(post.curPool())
+		}
 		sh.inited = true
-		sh.startActive = active(post.curPool())
 	}
 	if sh.inited && okOp {
 		sh.poolInvariants(r, w, name, op, pre, post, cr)
@@ -356,7 +376,7 @@ func (sh *shadow) poolInvariants(r *hx.Run, w *world, name string, op []string, 
 	byKey := map[string][]poolItem{}
 	byIdx := map[uint32][]string{}
 	for _, it := range items {
-		k := pkBytesKey(it.Pk)
+		k := pkIdentity(it.Pk)
 		byKey[k] = append(byKey[k], it)
 	}
 	for k, l := range byKey {
